@@ -162,6 +162,8 @@ static void locSession(vh::Rng& r, int integ) {
     std::vector<WSpec> ws;
     for (int i = 0; i < nw; ++i) ws.push_back(randomTimeWitness(r, t0s, 3.0));
     if (nw >= 2 && r.below(4) == 0) { ws[1] = ws[0]; ws[1].mask = 3; }                 // simultaneous events
+    if (nw >= 2) { for (int i = 0; i < nw; ++i) ws[i].window = 0.02 * (1 << (2 * ((i + (int)r.below(3)) % 3)));    // DISTINCT per-trigger localisation windows
+                   if (ws[0].window == ws[1].window) ws[1].window *= 3; vh::D("class.distinct_windows"); }
     if (r.below(8) == 0) { ws[0].kind = 0; ws[0].a = t0s; }                            // event function zero at the start
     for (int i = 0; i < nw; ++i) B.system.addEventHandler(new Witness(ws[i], i));
     State state = B.system.realizeTopology();
@@ -220,6 +222,13 @@ static void e2eSession(vh::Rng& r, int integ) {
     std::vector<WSpec> ws;
     for (int i = 0; i < nw; ++i) ws.push_back(randomTimeWitness(r, t0s, tEnd));
     if (nw >= 2 && r.below(4) == 0) { ws[1] = ws[0]; ws[1].mask = 3; }
+    if (nw >= 2) { for (int i = 0; i < nw; ++i) ws[i].window = 0.02 * (1 << (2 * ((i + (int)r.below(3)) % 3)));    // DISTINCT per-trigger localisation windows
+                   if (ws[0].window == ws[1].window) ws[1].window *= 3; vh::D("class.distinct_windows"); }
+    // a STATE-dependent witness q - c on the oscillator (guaranteed share): its values at probe times come from the interpolated
+    // state, so wrong Hermite interpolation / stale eLow,eHigh after the back-up show up here
+    const bool stateWit = r.below(2) == 0;
+    if (stateWit) { WSpec w; w.kind = 2; w.a = r.range(-0.25, 0.25); w.b = 0; w.mask = 1 + r.below(3); w.window = r.below(2) ? 0.1 : 0.5;
+                    ws.push_back(w); nw = (int)ws.size(); vh::D("class.state_witness"); }
     double gap = Inf; for (auto& w : ws) gap = std::min(gap, minGap(w));
     for (int i = 0; i < nw; ++i) B.system.addEventHandler(new Witness(ws[i], i));
     State state = B.system.realizeTopology();
@@ -231,13 +240,18 @@ static void e2eSession(vh::Rng& r, int integ) {
     const double acc = std::pow(10.0, -r.range(2.0, 6.0));
     I.setAccuracy(acc);
     if (integ != 6) I.setMaximumStepSize(std::min(0.25, 0.3 * gap));     // no witness can cross twice within one step
-    if (r.below(4) == 0 && !isCP) I.setReturnEveryInternalStep(true);
+    if ((r.below(4) == 0 && !isCP) || stateWit) I.setReturnEveryInternalStep(true);   // state witnesses: every step end is seen
     I.initialize(state);
     const double accTs = I.getAccuracyInUse() * B.system.getDefaultTimeScale();
     const double signif = NTraits<Real>::getSignificant();
     Array_<EventTriggerInfo> infos; B.system.calcEventTriggerInfo(I.getAdvancedState(), infos);
     std::vector<int> id2idx(1000, -1);
+    // trigger index order: Time-stage witnesses first, then Position-stage ones (the state witness is added last: same order)
     for (int i = 0; i < (int)infos.size(); ++i) { int id = infos[i].getEventId(); if (id >= 0 && id < 1000) id2idx[id] = i; }
+    auto sgn = [](double x) { return (x > 0) - (x < 0); };
+    std::vector<int> advSign(ws.size(), 0), nChange(ws.size(), 0), nReported(ws.size(), 0);
+    for (size_t j = 0; j < ws.size(); ++j) advSign[j] = sgn(wval(ws[j], I.getAdvancedTime(), I.getAdvancedState().getQ()[0]));
+    double lastAdv = I.getAdvancedTime();
     const std::string fam = isCP ? "CPodes" : "AbstractIntegratorRep";
     const std::string nm = INTEG_NAMES[integ];
     const double dtr = r.range(0.05, 0.4);
@@ -249,6 +263,14 @@ static void e2eSession(vh::Rng& r, int integ) {
     while (I.getTime() < tEnd && guard++ < 20000) {
         Integrator::SuccessfulStepStatus st = I.stepTo(std::min(rep, tEnd), Inf);
         if (std::getenv("C22_DEBUG")) std::fprintf(stderr, "call report %.12f -> %d t=%.12f adv=%.12f interp=%d\n", std::min(rep, tEnd), (int)st, I.getTime(), I.getAdvancedTime(), (int)I.isStateInterpolated());
+        if (I.getAdvancedTime() != lastAdv) {     // the advanced state moved: the sign of every witness at the new step end
+            lastAdv = I.getAdvancedTime();
+            for (size_t j = 0; j < ws.size(); ++j) {
+                const int sNew = sgn(wval(ws[j], lastAdv, I.getAdvancedState().getQ()[0]));
+                if (advSign[j] != 0 && sNew != advSign[j] && (ws[j].mask & (advSign[j] == 1 ? 1 : 2))) nChange[j]++;
+                advSign[j] = sNew;
+            }
+        }
         if (st == Integrator::ReachedReportTime && I.getTime() >= std::min(rep, tEnd)) { if (rep >= tEnd) break; rep += dtr; }
         if (st != Integrator::ReachedEventTrigger) continue;
         Vec2 w = I.getEventWindow();
@@ -262,7 +284,8 @@ static void e2eSession(vh::Rng& r, int integ) {
             W.idx.push_back(j); W.trans.push_back((int)I.getEventTransitionsSeen()[i]);
             tol = std::min(tol, accTs * ws[j].window);
             // the trigger really changed sign in a monitored direction across the window
-            const double eL = wval(ws[j], tLow, 0), eH = wval(ws[j], tHigh, 0);
+            const double eL = wval(ws[j], tLow, I.getState().getQ()[0]), eH = wval(ws[j], tHigh, I.getAdvancedState().getQ()[0]);
+            nReported[j]++;
             const int sL = (eL > 0) - (eL < 0), sH = (eH > 0) - (eH < 0);
             const int tr = (sL == sH || sL == 0) ? 0 : (sL == 1 ? 1 : 2);
             if ((tr & ws[j].mask) == 0 || (int)I.getEventTransitionsSeen()[i] != tr) worstBracket = 1;
@@ -278,7 +301,7 @@ static void e2eSession(vh::Rng& r, int integ) {
         for (int j = 0; j < (int)ws.size(); ++j) {
             int pos = -1;
             for (int i = 0; i < (int)ids.size(); ++i) if (id2idx[(int)ids[i]] == j) pos = i;
-            L.i(ws[j].mask).d(ws[j].window).d(wval(ws[j], tLow, 0)).d(wval(ws[j], tHigh, 0)).i(pos);
+            L.i(ws[j].mask).d(ws[j].window).d(wval(ws[j], tLow, I.getState().getQ()[0])).d(wval(ws[j], tHigh, I.getAdvancedState().getQ()[0])).i(pos);
             L.i(pos >= 0 ? (int)I.getEventTransitionsSeen()[pos] : 0).d(pos >= 0 ? I.getEstimatedEventTimes()[pos] : 0.0);
         }
         L.s(isCP ? "cpodes" : "abstract").s(g_tag);
@@ -309,7 +332,10 @@ static void e2eSession(vh::Rng& r, int integ) {
             if (!found && mustBeReported) { missed += 1; std::fprintf(stderr, "MISSED witness %d (kind %d a=%.17g b=%.17g mask %d) crossing at %.17g dir %d, integrated to %.17g\n", j, ws[j].kind, ws[j].a, ws[j].b, ws[j].mask, c.first, c.second, tDone); }
         }
     }
-    for (size_t k2 = 0; k2 < wins.size(); ++k2) for (size_t i = 0; i < used[k2].size(); ++i) if (!used[k2][i]) spurious += 1;
+    for (size_t k2 = 0; k2 < wins.size(); ++k2) for (size_t i = 0; i < used[k2].size(); ++i) if (!used[k2][i] && ws[wins[k2].idx[i]].kind != 2) spurious += 1;
+    // state-dependent witnesses: monitored sign changes between consecutive step ends vs reported events (the last may be pending)
+    double stateBad = 0;
+    for (size_t j = 0; j < ws.size(); ++j) if (ws[j].kind == 2) { if (nReported[j] > nChange[j] || nReported[j] + 1 < nChange[j]) stateBad = 1 + std::abs(nReported[j] - nChange[j]); }
     // a session is itself a record (so its P lines have an I line to attach to)
     vh::Line L = vh::I("sess"); L.s(nm).i(ncross).i((long long)wins.size()).s(g_tag); L.emit();
     vh::O("sess").i(1).emit();
@@ -319,6 +345,7 @@ static void e2eSession(vh::Rng& r, int integ) {
     vh::P("events_and_windows_in_time_order", fam + ".e2e.order", worstOrder, 0);
     vh::P("no_crossing_skipped", fam + ".e2e.missed", missed, 0);
     vh::P("only_real_crossings_listed", fam + ".e2e.spurious", spurious, 0);
+    if (stateWit) vh::P("state_witness_sign_changes_all_reported", fam + ".e2e.state_witness", stateBad, 0);
 }
 
 // ============================================================ mode ts
